@@ -40,8 +40,11 @@ LookaheadMonotone ==
 \* C10: deleting every elided token changes nothing (grammars of the family do not name elided types and
 \* carry no raw-token-index fields)
 Project(t) == SelectSeq(t, LAMBDA x : ~x.el)
+\* (grammars with lexer.Token fields print raw token indices, which re-spacing shifts: for those only the relation on the
+\* real outcomes with tokens compared by type and text is checked, see props/parser.py)
+HasIndexFields(g) == \E i \in 1..Len(g.prods) : \E j \in 1..Len(g.prods[i].fields) : g.prods[i].fields[j].kind \in {"token", "tokens", "pos"}
 ElisionIndependent ==
-  done => \A k \in 1..Len(G.ks) : LET a == Outcome(G, Toks, G.ks[k])  b == Outcome(G, Project(Toks), G.ks[k]) IN
+  (done /\ ~HasIndexFields(G)) => \A k \in 1..Len(G.ks) : LET a == Outcome(G, Toks, G.ks[k])  b == Outcome(G, Project(Toks), G.ks[k]) IN
                                    (a # "bug" /\ b # "bug") => a = b
 
 \* C02: no write of an abandoned attempt targets a struct value that survives it
